@@ -13,6 +13,10 @@ GOSYM = os.path.join(VERIF, "bin", "gosym")
 
 
 def build_gosym():
+    global GOSYM
+    if os.environ.get("VERIF_GOSYM"):  # development: a pre-built engine binary
+        GOSYM = os.environ["VERIF_GOSYM"]
+        return
     src = os.path.join(VERIF, "gosym")
     newest = max(os.path.getmtime(f) for f in glob.glob(src + "/*.go") + [src + "/go.mod"])
     if os.path.exists(GOSYM) and os.path.getmtime(GOSYM) >= newest:
